@@ -530,7 +530,7 @@ def free_run(dc, sc, res, rng, seed, topo, label):
     d = sc.new()
     journal = rng.choice(['wal', 'wal', 'delete', 'truncate', 'persist'])
     res.count('free_runs_journal_' + ('wal' if journal == 'wal' else 'rollback'))
-    c = dc.Cache(d, disk_min_file_size=T, eviction_policy='none', sqlite_journal_mode=journal)
+    c = dc.Cache(d, disk_min_file_size=T, eviction_policy='none', **common.journal_kw(journal))
     c['k'] = 'init;' * 30
     c.close()
     roles = [('writer', 0), ('writer', 1), ('reader', 2), ('reader', 3)][:rng.randrange(3, 5)]
